@@ -92,6 +92,10 @@ def parseVals : Nat → List String → Option (List α × List String)
       pure (v :: vs, rest)
   | _, [] => none
 
+def chunkL (d : Nat) : Nat → List α → List (List α)
+  | 0, _ => []
+  | n + 1, xs => xs.take d :: chunkL d n (xs.drop d)
+
 partial def parseKern : List String → Option (Kern α × List String)
   | "lin" :: ts => some (.linear, ts)
   | "poly" :: d :: c :: ts => do
@@ -130,6 +134,25 @@ partial def parseKern : List String → Option (Kern α × List String)
       let a ← a.toNat?; let b ← b.toNat?
       let (k, rest) ← parseKern ts
       pure (.subrange a b k, rest)
+  | "model" :: r :: c :: ts => do        -- model r c A(r*c) b(r) K : ModelKernel over LinearModel x ↦ A x + b
+      let r ← r.toNat?; let c ← c.toNat?
+      let (as, rest) ← parseVals (r * c) ts
+      let (bs, rest) ← parseVals r rest
+      let (k, rest) ← parseKern rest
+      pure (.mapped (chunkL c r as) bs k, rest)
+  | "subk" :: n :: ts => do              -- subk n p2..pn a1 b1 K1 ... an bn Kn : SubrangeKernel + setParameterVector
+      let n ← n.toNat?
+      let (ps, rest) ← parseVals (n - 1) ts
+      let rec goTerms : Nat → List String → Option (List (Nat × Nat × Kern α) × List String)
+        | 0, ts => some ([], ts)
+        | n + 1, a :: b :: ts => do
+            let a ← a.toNat?; let b ← b.toNat?
+            let (k, rest) ← parseKern ts
+            let (more, rest) ← goTerms n rest
+            pure ((a, b, k) :: more, rest)
+        | _, _ => none
+      let (terms, rest) ← goTerms n rest
+      pure (subrangeKernel DrvScalar.exp ps terms, rest)
   | _ => none
 where
   parseKerns : Nat → List String → Option (List (Kern α) × List String)
@@ -151,6 +174,7 @@ structure St (α : Type) where
   table : Option (Mat α) := none     -- DiscreteKernel
   pts : List (Point α) := []
   ipts : List Nat := []
+  sets : List (Mat α) := []          -- PointSetKernel inputs
 
 def seg {β : Type} (xs : List β) (a b : Nat) : List β := (xs.drop a).take (b - a)
 
@@ -169,7 +193,7 @@ def step (s : St α) (line : String) : St α × String :=
       | _ => (s, "bad-op")
   | "kern" :: ts =>
     match parseKern (α := α) ts with
-    | some (k, []) => ({ s with kern := some k, table := none }, "ok")
+    | some (k, []) => ({ s with kern := some k, table := none, sets := [] }, "ok")
     | _ => (s, "bad-op")
   | "pts" :: n :: d :: ts =>
     match n.toNat?, d.toNat? with
@@ -177,6 +201,34 @@ def step (s : St α) (line : String) : St α × String :=
       match parseVals (α := α) (n * d) ts with
       | some (vs, []) => ({ s with pts := chunk d n vs }, s!"ok {n} {d}")
       | _ => (s, "bad-op")
+    | _, _ => (s, "bad-op")
+  | "psets" :: ts =>
+    match ts.mapM String.toNat? with
+    | some sizes => ({ s with sets := splitSizes s.pts sizes }, s!"ok {sizes.length}")
+    | none => (s, "bad-op")
+  | "ps" :: op :: args =>
+    match (if s.sets.isEmpty then none else s.kern), args.mapM parseNatOrVal with
+    | some k, some a =>
+      let pse (X Z : Mat α) : α := pointSetEval ex sq k X Z
+      let pseS (X Z : Mat α) : α := matSum (k.evalBlockS ex sq X Z) / natS (X.length * Z.length)
+      let st (i : Nat) : Mat α := s.sets.getD i []
+      match op, a with
+      | "single", [.inl i, .inl j] => (s, DrvScalar.render (pse (st i) (st j)))
+      | "block", [.inl a, .inl b, .inl c, .inl d] =>
+        (s, showMat (pointSetBlock ex sq k (seg s.sets a b) (seg s.sets c d)))
+      | "sblock", [.inl a, .inl b, .inl c, .inl d] =>
+        (s, showMat ((seg s.sets a b).map fun X => (seg s.sets c d).map fun Z => pseS X Z))
+      | "fdist", [.inl i, .inl j] =>
+        (s, DrvScalar.render (pse (st i) (st i) - two * pse (st i) (st j) + pse (st j) (st j)))
+      | "dcheck", _ => (s, "ok")
+      | "gram", reg :: sizes =>
+        match sizes.mapM natOf with
+        | none => (s, "bad-op")
+        | some sizes =>
+          let n := sizes.foldl (· + ·) 0
+          let M := regularizedGram (pointSetBlock ex sq k) (valOf reg) (splitSizes s.sets sizes)
+          (s, showMat (M.toRows n n))
+      | _, _ => (s, "bad-op")
     | _, _ => (s, "bad-op")
   | "ipts" :: ts =>
     match ts.mapM String.toNat? with
